@@ -361,9 +361,24 @@ func CheckC12(c *Ctx) {
 			lastDateObj = info.Defs[id]
 		}
 		if i+1 < len(loop.Body.List) {
-			if is, ok := loop.Body.List[i+1].(*ast.IfStmt); ok && exprString(is.Cond) == "err == nil" && is.Else != nil {
+			var errObj types.Object
+			if len(as.Lhs) == 2 {
+				if eid, ok := as.Lhs[1].(*ast.Ident); ok {
+					errObj = info.ObjectOf(eid)
+				}
+			}
+			if is, ok := loop.Body.List[i+1].(*ast.IfStmt); ok && is.Else != nil {
+				// which branch is taken when LastDate succeeded: `err == nil` or `err != nil` of that err
+				orient := nilTest(info, is.Cond, errObj)
+				if orient == 0 {
+					continue
+				}
+				var okBranch, failBranch ast.Node = is.Body, is.Else
+				if orient < 0 {
+					okBranch, failBranch = is.Else, is.Body
+				}
 				thenOK, elseOK := false, false
-				ast.Inspect(is.Body, func(n ast.Node) bool {
+				ast.Inspect(okBranch, func(n ast.Node) bool {
 					if call, ok := n.(*ast.CallExpr); ok && calleeName(info, call) == "time.(Time).AddDate" && len(call.Args) == 3 {
 						y, _ := constInt(info, call.Args[0])
 						m, _ := constInt(info, call.Args[1])
@@ -374,7 +389,7 @@ func CheckC12(c *Ctx) {
 					}
 					return true
 				})
-				ast.Inspect(is.Else, func(n ast.Node) bool {
+				ast.Inspect(failBranch, func(n ast.Node) bool {
 					if as2, ok := n.(*ast.AssignStmt); ok && len(as2.Lhs) == 1 && len(as2.Rhs) == 1 {
 						if l, ok := as2.Lhs[0].(*ast.Ident); ok && info.Uses[l] == lastDateObj {
 							if r, ok := as2.Rhs[0].(*ast.Ident); ok {
@@ -407,14 +422,14 @@ func CheckC12(c *Ctx) {
 			return true
 		}
 		name := calleeName(info, call)
-		if strings.HasSuffix(name, ".GetSince") && len(call.Args) == 2 && strings.HasPrefix(exprString(call.Fun), "source.") {
+		if strings.HasSuffix(name, ".GetSince") && len(call.Args) == 2 && recvIsParam(info, fi, call.Fun, 0) {
 			if id, ok := call.Args[1].(*ast.Ident); ok && info.Uses[id] == lastDateObj {
 				if l, ok := as.Lhs[0].(*ast.Ident); ok {
 					snapsObj = info.Defs[l]
 				}
 			}
 		}
-		if strings.HasSuffix(name, ".Append") && len(call.Args) == 2 && strings.HasPrefix(exprString(call.Fun), "target.") {
+		if strings.HasSuffix(name, ".Append") && len(call.Args) == 2 && recvIsParam(info, fi, call.Fun, 1) {
 			if id, ok := call.Args[1].(*ast.Ident); ok && snapsObj != nil && info.Uses[id] == snapsObj {
 				if exprString(call.Args[0]) == exprString(loop.Key) {
 					flowOK = true
@@ -430,10 +445,30 @@ func CheckC12(c *Ctx) {
 	// fault isolation
 	flag := ""
 	nErr := 0
-	for _, s := range loop.Body.List {
+	for si, s := range loop.Body.List {
 		is, ok := s.(*ast.IfStmt)
-		if !ok || exprString(is.Cond) != "err != nil" {
+		if !ok || si == 0 {
 			continue
+		}
+		// the failure branch of a source read or a target append: the statement before assigns the
+		// error of GetSince/Append and this condition tests that error against nil
+		prev, isAs := loop.Body.List[si-1].(*ast.AssignStmt)
+		if !isAs || len(prev.Rhs) != 1 {
+			continue
+		}
+		pc, isCall := prev.Rhs[0].(*ast.CallExpr)
+		if !isCall {
+			continue
+		}
+		if pn := calleeName(info, pc); !strings.HasSuffix(pn, ".GetSince") && !strings.HasSuffix(pn, ".Append") {
+			continue
+		}
+		var perr types.Object
+		if eid, ok := prev.Lhs[len(prev.Lhs)-1].(*ast.Ident); ok {
+			perr = info.ObjectOf(eid)
+		}
+		if nilTest(info, is.Cond, perr) >= 0 || is.Else != nil {
+			continue // not of the form `if err != nil { ... }`
 		}
 		nErr++
 		sets := ""
@@ -699,14 +734,34 @@ func (c *Ctx) comparators() {
 					return true
 				}
 				for _, a := range call.Args {
-					fl, ok := a.(*ast.FuncLit)
-					if !ok {
+					var body *ast.BlockStmt
+					binfo := info
+					switch x := a.(type) {
+					case *ast.FuncLit:
+						body = x.Body
+					case *ast.Ident, *ast.SelectorExpr:
+						// a declared function (or method value) used as the ordering function
+						var fn *types.Func
+						if id, isID := x.(*ast.Ident); isID {
+							fn, _ = info.Uses[id].(*types.Func)
+						} else if fn2, isFn := info.Uses[x.(*ast.SelectorExpr).Sel].(*types.Func); isFn {
+							fn = fn2
+						}
+						if fn != nil {
+							if dfi := c.P.Decls[fn.Origin()]; dfi != nil && dfi.Decl.Body != nil {
+								body = dfi.Decl.Body
+								binfo = dfi.Pkg.TypesInfo
+							}
+						}
+					}
+					if body == nil {
 						continue
 					}
+					info := binfo
 					n++
 					bad := false
 					var bp token.Pos
-					ast.Inspect(fl.Body, func(m ast.Node) bool {
+					ast.Inspect(body, func(m ast.Node) bool {
 						conv, ok := m.(*ast.CallExpr)
 						if !ok || len(conv.Args) != 1 {
 							return true
@@ -1087,4 +1142,45 @@ func shadowedLocals(info *types.Info, fd *ast.FuncDecl) []shadow {
 	})
 	sort.Slice(out, func(i, j int) bool { return out[i].pos < out[j].pos })
 	return out
+}
+
+// nilTest: +1 when cond is `obj == nil`, -1 when it is `obj != nil` (either operand order), else 0.
+func nilTest(info *types.Info, cond ast.Expr, obj types.Object) int {
+	for {
+		p, ok := cond.(*ast.ParenExpr)
+		if !ok {
+			break
+		}
+		cond = p.X
+	}
+	be, ok := cond.(*ast.BinaryExpr)
+	if !ok || obj == nil || (be.Op != token.EQL && be.Op != token.NEQ) {
+		return 0
+	}
+	isObj := func(e ast.Expr) bool { id, ok := e.(*ast.Ident); return ok && info.ObjectOf(id) == obj }
+	isNil := func(e ast.Expr) bool {
+		id, ok := e.(*ast.Ident)
+		return ok && id.Name == "nil" && info.ObjectOf(id) == types.Universe.Lookup("nil")
+	}
+	if (isObj(be.X) && isNil(be.Y)) || (isNil(be.X) && isObj(be.Y)) {
+		if be.Op == token.EQL {
+			return 1
+		}
+		return -1
+	}
+	return 0
+}
+
+// recvIsParam: fun is a method selected on the k-th parameter of fi.
+func recvIsParam(info *types.Info, fi *load.FuncInfo, fun ast.Expr, k int) bool {
+	sel, ok := fun.(*ast.SelectorExpr)
+	if !ok {
+		return false
+	}
+	id, ok := sel.X.(*ast.Ident)
+	if !ok {
+		return false
+	}
+	sig := fi.Fn.Type().(*types.Signature)
+	return k < sig.Params().Len() && info.ObjectOf(id) == sig.Params().At(k)
 }
